@@ -811,3 +811,166 @@ func ruleR059(c *Ctx) {
 		c.Undecided("funcGen#try-evaluation", token.NoPos, "expected the generic and the custom try/catch generator, found %d", n)
 	}
 }
+
+// ---------------------------------------------------------------------------
+// R05.10 a recovered panic always becomes an outcome
+
+// ruleR0510: in every function that calls recover() directly, each path
+// through the branch "a panic was recovered" has to report it: assign the
+// error result the function can set (a named error result of the function
+// that defers it, or *err of a pointer parameter), hand it to a callback, or
+// panic again. Where the function has no error to set (the optimizer wrapper
+// restores the AST, the consumer guard keeps the value for a later re-panic),
+// the path has to assign a variable that outlives the recovering function.
+func ruleR0510(c *Ctx) {
+	n := 0
+	forEachFuncBody(c.RepoPkgs, func(pkg *packages.Package, fn ast.Node, body *ast.BlockStmt) {
+		info := pkg.TypesInfo
+		var ifs *ast.IfStmt
+		var recObj types.Object
+		inspectNoLit(body, func(x ast.Node) bool {
+			t, ok := x.(*ast.IfStmt)
+			if !ok || t.Init == nil {
+				return true
+			}
+			as, ok := t.Init.(*ast.AssignStmt)
+			if !ok || len(as.Lhs) != 1 || len(as.Rhs) != 1 {
+				return true
+			}
+			call, ok := ast.Unparen(as.Rhs[0]).(*ast.CallExpr)
+			if !ok {
+				return true
+			}
+			if id, ok := ast.Unparen(call.Fun).(*ast.Ident); ok {
+				if b, ok := info.Uses[id].(*types.Builtin); ok && b.Name() == "recover" {
+					ifs = t
+					if l, ok := as.Lhs[0].(*ast.Ident); ok {
+						recObj = info.ObjectOf(l)
+					}
+				}
+			}
+			return true
+		})
+		if ifs == nil {
+			// recover() in another shape
+			if callsRecoverDirectly(info, body) {
+				n++
+				c.Undecided(c.FuncName(fn)+litSuffix(c, fn)+"#recovered-panic-reported", fn.Pos(), "recover() is not used in the form `if rec := recover(); rec != nil`")
+			}
+			return
+		}
+		n++
+		key := c.FuncName(fn) + litSuffix(c, fn) + "#recovered-panic-reported"
+		// what this function can set
+		errTargets := map[types.Object]bool{}
+		ptrTargets := map[types.Object]bool{}
+		var ft *ast.FuncType
+		switch t := fn.(type) {
+		case *ast.FuncDecl:
+			ft = t.Type
+		case *ast.FuncLit:
+			ft = t.Type
+		}
+		if ft.Params != nil {
+			for _, f := range ft.Params.List {
+				for _, nm := range f.Names {
+					if p, ok := info.TypeOf(nm).(*types.Pointer); ok && isErrorType(p.Elem()) {
+						ptrTargets[info.Defs[nm]] = true
+					}
+				}
+			}
+		}
+		// named error results of the enclosing functions (the deferred literal sets them)
+		for cur := fn; cur != nil; cur = c.EnclosingFunc(cur) {
+			var t *ast.FuncType
+			switch f := cur.(type) {
+			case *ast.FuncDecl:
+				t = f.Type
+			case *ast.FuncLit:
+				t = f.Type
+			}
+			if t != nil && t.Results != nil {
+				for _, f := range t.Results.List {
+					for _, nm := range f.Names {
+						if isErrorType(info.TypeOf(nm)) {
+							errTargets[info.Defs[nm]] = true
+						}
+					}
+				}
+			}
+			if len(errTargets) > 0 {
+				break
+			}
+		}
+		strong := len(errTargets)+len(ptrTargets) > 0
+		isSink := func(x ast.Node) bool {
+			return containsNode(x, func(y ast.Node) bool {
+				switch t := y.(type) {
+				case *ast.AssignStmt:
+					for _, l := range t.Lhs {
+						l = ast.Unparen(l)
+						if id, ok := l.(*ast.Ident); ok {
+							obj := info.ObjectOf(id)
+							if errTargets[obj] {
+								return true
+							}
+							if !strong && obj != nil && (obj.Pos() < fn.Pos() || obj.Pos() > fn.End()) {
+								return true // a captured variable / named result of the enclosing function
+							}
+						}
+						if st, ok := l.(*ast.StarExpr); ok {
+							if id, ok := ast.Unparen(st.X).(*ast.Ident); ok && ptrTargets[info.ObjectOf(id)] {
+								return true
+							}
+						}
+					}
+				case *ast.CallExpr:
+					if id, ok := ast.Unparen(t.Fun).(*ast.Ident); ok {
+						if b, ok := info.Uses[id].(*types.Builtin); ok && b.Name() == "panic" {
+							return true
+						}
+						// a callback (parameter or captured function value) that is handed an error
+						if v, ok := info.ObjectOf(id).(*types.Var); ok && v != nil {
+							if _, isFunc := v.Type().Underlying().(*types.Signature); isFunc {
+								for _, a := range t.Args {
+									if isErrorType(info.TypeOf(a)) {
+										return true
+									}
+								}
+							}
+						}
+					}
+				}
+				return false
+			})
+		}
+		g := c.CFG(fn)
+		found, trail := g.PathAvoidingEdges(nil, isSink, func(cond ast.Expr, val bool) bool {
+			// follow only "a panic was recovered"
+			if be, ok := ast.Unparen(cond).(*ast.BinaryExpr); ok && cond == ifs.Cond {
+				_ = be
+				return val
+			}
+			return true
+		})
+		_ = recObj
+		if found {
+			where := ""
+			if len(trail) > 0 {
+				where = " (path ends behind " + c.posStr(trail[len(trail)-1].Pos()) + ")"
+			}
+			if strong {
+				c.Violation(key, ifs.Pos(), "a recovered panic is not reported on every path%s: the function can set an error result but leaves it nil, the caller gets a success with an empty value", where)
+			} else {
+				c.Violation(key, ifs.Pos(), "a recovered panic has no effect on every path%s: it is swallowed", where)
+			}
+		} else if strong {
+			c.OK(key, ifs.Pos(), "every path through the recovering branch sets the error result, calls a callback with the error or panics again")
+		} else {
+			c.OK(key, ifs.Pos(), "every path through the recovering branch records the panic in state that outlives the function (no error result to set here)")
+		}
+	})
+	if n < 6 {
+		c.Undecided("recover-sites", token.NoPos, "only %d functions calling recover() found", n)
+	}
+}
